@@ -68,7 +68,7 @@ def gen(rng: random.Random, *, cdda_ok: bool = True, pairs: bool = True) -> dict
                                       "seed": rng.getrandbits(20)})
                 vols.append({"name": vnames[vi], "vtype": 3, "dir": {"mode": "chain", "policy": "contiguous", "seed": 0}, "files": files})
             parts.append({"spare": 2, "volumes": vols})
-        return {"fmt": "akai", "model": {"partitions": parts, "trailing": 0}, "block": rng.choice([4096, 4096, 64, 510])}
+        return {"fmt": "akai", "model": {"partitions": parts, "trailing": rng.choice([0, 0, 700, 8192])}, "block": rng.choice([4096, 4096, 64, 510])}
     if fmt == "roland":
         ns = rng.randint(1, 7)
         names = ascii_name_set(rng, ns, pairs=pairs)
